@@ -15,7 +15,9 @@
 package toml
 
 import (
+	"fmt"
 	"io"
+	"math"
 
 	"github.com/pelletier/go-toml/v2"
 
@@ -39,9 +41,54 @@ type Encoder struct {
 }
 
 func (e *Encoder) Encode(val cue.Value) error {
+	if err := checkRepresentable(val); err != nil {
+		return err
+	}
 	var v any
 	if err := val.Decode(&v); err != nil {
 		return err
 	}
 	return e.encoder.Encode(v)
+}
+
+// checkRepresentable reports an error for the values that TOML cannot
+// represent and that the reflection-based encoder would otherwise change
+// silently: null (dropped), bytes (a list of integers), integers beyond
+// 64 bits and floats beyond float64 (strings).
+func checkRepresentable(val cue.Value) error {
+	switch val.Kind() {
+	case cue.NullKind:
+		return fmt.Errorf("%v: TOML cannot represent null", val.Path())
+	case cue.BytesKind:
+		return fmt.Errorf("%v: TOML cannot represent bytes", val.Path())
+	case cue.IntKind:
+		if _, err := val.Int64(); err != nil {
+			return fmt.Errorf("%v: TOML cannot represent the integer %v: %v", val.Path(), val, err)
+		}
+	case cue.FloatKind:
+		if f, err := val.Float64(); err != nil || math.IsInf(f, 0) {
+			return fmt.Errorf("%v: TOML cannot represent the number %v as a 64-bit float", val.Path(), val)
+		}
+	case cue.ListKind:
+		iter, err := val.List()
+		if err != nil {
+			return err
+		}
+		for iter.Next() {
+			if err := checkRepresentable(iter.Value()); err != nil {
+				return err
+			}
+		}
+	case cue.StructKind:
+		iter, err := val.Fields()
+		if err != nil {
+			return err
+		}
+		for iter.Next() {
+			if err := checkRepresentable(iter.Value()); err != nil {
+				return err
+			}
+		}
+	}
+	return nil
 }
